@@ -76,4 +76,7 @@ theorem products_never_wrap (ell : Nat) (hell : ell ≤ Gen.q120_max_ell) (j : N
    fun x y hx hy => ⟨(C10.bbb_exact ell hell x y hx hy j hj).1, (C10.bbb_exact ell hell x y hx hy j hj).2.2⟩,
    fun x y hx hy hc => ⟨(C10.bbc_exact ell hell x y hx hy hc j hj).1, (C10.bbc_exact ell hell x y hx hy hc j hj).2.2⟩⟩
 
+/-- Gen obligation: the product theorems' length domain (`MAX_ELL` of the source) covers the property's `0..10000` -/
+theorem max_ell_covers : 10000 ≤ Gen.q120_max_ell := by decide
+
 end Spq.C04
